@@ -208,7 +208,7 @@ theorem table_reencode (env : Env) (E : EnumInfo) (fromRot : List String)
       have hraw : toNat bits < 2 ^ f.width := by rw [← hlen]; exact toNat_lt bits
       obtain ⟨tbl, c, m, htbl, hcm, hok⟩ := tablesOk_enum env E htab n cls _ hl _ hraw
       simp only [Bool.and_eq_true, Bool.or_eq_true, Bool.not_eq_true', beq_iff_eq] at hok
-      obtain ⟨⟨hc, hmem⟩, hexm⟩ := hok
+      obtain ⟨⟨⟨hc, hmem⟩, hexm⟩, _⟩ := hok
       subst hc
       obtain ⟨hm0, hmlt, hmm⟩ := enumRTOk_spec env E henum n c _ hl tbl htbl _ hraw c m hcm
       have hkey : ∀ bs, (decodeRaw f bs).key = some (toNat bs : Int) := by
@@ -234,7 +234,7 @@ theorem table_reencode (env : Env) (E : EnumInfo) (fromRot : List String)
             rw [Int.toNat_of_nonneg hm0] at hcm' hok'
             simp only [Bool.and_eq_true, Bool.or_eq_true, Bool.not_eq_true', beq_iff_eq] at hok'
             have hm' : m' = m := by
-              rcases hok'.2 with h' | h'
+              rcases hok'.1.2 with h' | h'
               · rw [hmem] at h'; cases h'
               · exact h'
             subst hm'
